@@ -173,7 +173,7 @@ class Impl:
         if case["mdtgt"] is not None:
             md["chunk_target_size_mb"] = (case["mdtgt"] + 0.5) * isz / 1e6
         self.inputs = [real_chunk(c, self.v) for c in case["stream"]]
-        saver = fe.saver(key, md, saver_timeout=30)
+        saver = fe.saver(key, md, saver_timeout=300)
         saver.allow_rechunk = bool(case["allow"])
         self.save = "ok"
         try:
@@ -300,10 +300,11 @@ class Impl:
             if os.path.exists(fname(ta)):
                 strax.save_file(fname(ta), mk_array(trows, self.v), compressor=COMPRESSORS[tb])
         elif top == 5:
-            if os.path.exists(fname(ta)) and os.path.exists(fname(tb)) and ta != tb:
-                os.rename(fname(ta), fname(ta) + "_x")
-                os.rename(fname(tb), fname(ta))
-                os.rename(fname(ta) + "_x", fname(tb))
+            fa, fb = fname(ta), fname(tb)
+            if os.path.exists(fa) and os.path.exists(fb) and ta != tb:
+                os.rename(fa, fa + "_x")
+                os.rename(fb, fa)
+                os.rename(fa + "_x", fb)
         elif top == 6:
             md.pop(["run_id", "data_type", "data_kind", "dtype", "compressor", "chunk_target_size_mb"][ta], None)
             wr = True
